@@ -203,6 +203,18 @@ def gen(ctx):
         sess = (["initialize", "initialized"] if ctx.rng.random() < 0.8 else []) + body
         im = odd_ids(len(sess))
         cases.append(("odd-ids", sess, b"".join(frames(sess, im)), command(sess), im))
+    # a frame with correct headers whose body is not a JSON-RPC message: the stream is broken at that point - the server answers
+    # what came before, exits with status 1 and looks at NOTHING behind it (in particular it does not slide into the next phase)
+    bad_bodies = [b"{}", b'{"jsonrpc":"2.0","id":"five"}', b"[1,2]", b'{"jsonrpc":"2.0","method":', b"null", b'{"id":1}', b"\xff\xfe"]
+    for _ in range(120 if ctx.thorough() else 30):
+        body = [ctx.rng.choice(BASE) for _ in range(ctx.rng.randint(1, 6))]
+        sess = (["initialize", "initialized"] if ctx.rng.random() < 0.7 else []) + body
+        k = ctx.rng.randrange(0, len(sess))
+        fr = frames(sess)
+        bb = ctx.rng.choice(bad_bodies)
+        bad = b"Content-Length: %d\r\n\r\n" % len(bb) + bb
+        data = b"".join(fr[:k]) + bad + b"".join(fr[k:])
+        cases.append(("bad-body", sess[:k] + ["<bad body %r>" % bb] + sess[k:], data, command(sess, False, k)))
     # every byte prefix of some sessions, followed by end-of-input
     for _ in range(20 if ctx.thorough() else 6):
         body = [ctx.rng.choice(BASE) for _ in range(ctx.rng.randint(2, 5))]
